@@ -54,6 +54,9 @@ func (m ClientState) GetLatestHeight() exported.Height {
 }
 
 func (m ClientState) Validate() error {
+	if m.Epoch == 0 {
+		return sdkerrors.Wrap(ErrInvalidGenesisBlock, "epoch cannot be zero")
+	}
 	return m.Header.ValidateBasic()
 }
 
